@@ -430,7 +430,8 @@ func nameClass(n string) string {
 	if len(rs) == 0 {
 		return "empty"
 	}
-	if strings.ContainsAny(n, "`\",\\") {
+	// encoding/json accepts in tag names: letters, digits and !#$%&()*+-./:;<=>?@[]^_{|}~ and space
+	if strings.ContainsAny(n, "`\"',\\") {
 		return "struct-tag-breaking-character"
 	}
 	for _, r := range rs {
@@ -445,7 +446,8 @@ func nameClass(n string) string {
 		}
 	}
 	first := rs[0]
-	if first > 127 && unicode.IsLetter(first) && !unicode.IsUpper(first) && !unicode.IsLower(first) {
+	if first > 127 && unicode.IsLetter(first) && !unicode.IsUpper(unicode.ToUpper(first)) {
+		// CJK and other caseless scripts, and letters such as ß whose upper case is not a single rune
 		return "caseless-initial-letter"
 	}
 	if !ascii {
